@@ -49,6 +49,7 @@ import (
 
 	pkgerrors "github.com/pkg/errors"
 	"github.com/spf13/afero"
+	grpcgun "github.com/yandex/pandora/components/guns/grpc"
 	"github.com/yandex/pandora/components/providers/grpc/grpcjson"
 	phttp "github.com/yandex/pandora/components/providers/http"
 	phttpconf "github.com/yandex/pandora/components/providers/http/config"
@@ -224,6 +225,9 @@ func (p *mockProvider) Acquire() (core.Ammo, bool) {
 	}
 	if p.failed || (p.plan.ammo >= 0 && p.calls > p.plan.ammo) {
 		return nil, false
+	}
+	if p.pm.gw != nil {
+		return p.pm.gw.ammo(), true
 	}
 	return p.calls, true
 }
@@ -532,14 +536,32 @@ type poolMocks struct {
 	bindCalls  atomic.Int64
 	shoots     atomic.Int64
 	provRes    atomic.Value // what Provider.Run returned (class), unset while it has not returned
+	gw         *gwPool      // the pool's gun is the REAL grpc gun against this target (fault gw-...)
 }
 
 type mockGun struct {
-	pm   *poolMocks
-	aggr core.Aggregator
+	pm    *poolMocks
+	aggr  core.Aggregator
+	inner *grpcgun.Gun // the real grpc gun this one wraps (gw pools): WarmUp / Bind / Shoot are its own
+	dead  bool         // the real gun was configured so that it cannot connect
 }
 
-func (g *mockGun) WarmUp(*warmup.Options) (interface{}, error) {
+func (g *mockGun) WarmUp(o *warmup.Options) (interface{}, error) {
+	if g.inner != nil {
+		w := g.pm.gw
+		g.pm.rs.log.Info("verif-warmup", zap.Int("p", g.pm.idx))
+		deps, err := g.inner.WarmUp(o)
+		w.mu.Lock()
+		w.warmRes = w.describeWarm(err)
+		if err == nil {
+			w.deps = append(w.deps, deps)
+		}
+		w.mu.Unlock()
+		if err != nil { // what the real gun said, as a step of the history (the ground truth is the endpoint's plan)
+			g.pm.rs.log.Info("verif-pre-fail", zap.Int("p", g.pm.idx), zap.String("what", "warm"))
+		}
+		return deps, err
+	}
 	if g.pm.plan.fault == "warm" {
 		g.pm.fault("warm")
 		return nil, errWarm
@@ -547,8 +569,24 @@ func (g *mockGun) WarmUp(*warmup.Options) (interface{}, error) {
 	return nil, nil
 }
 
-func (g *mockGun) Bind(aggr core.Aggregator, _ core.GunDeps) error {
+func (g *mockGun) Bind(aggr core.Aggregator, deps core.GunDeps) error {
 	c := int(g.pm.bindCalls.Add(1))
+	if g.inner != nil {
+		if g.dead && g.pm.gw.plan.sc == 0 { // a gun that has to, but cannot, connect to its target cannot be bound
+			g.pm.fault("bind")
+		}
+		err := g.inner.Bind(aggr, deps)
+		if err == nil {
+			w := g.pm.gw
+			w.mu.Lock()
+			if w.methods == "-" {
+				w.methods = methodTable(g.inner)
+			}
+			w.mu.Unlock()
+		}
+		g.aggr = aggr
+		return err
+	}
 	if g.pm.plan.fault == "bind" && c == g.pm.plan.k+1 {
 		g.pm.fault("bind")
 		return errBind
@@ -557,7 +595,7 @@ func (g *mockGun) Bind(aggr core.Aggregator, _ core.GunDeps) error {
 	return nil
 }
 
-func (g *mockGun) Shoot(core.Ammo) {
+func (g *mockGun) Shoot(am core.Ammo) {
 	c := int(g.pm.shoots.Add(1))
 	rs := g.pm.rs
 	defer rs.enter(false)()
@@ -570,6 +608,10 @@ func (g *mockGun) Shoot(core.Ammo) {
 	if g.pm.plan.fault == "panic" && c == g.pm.plan.k {
 		g.pm.fault("panic")
 		panic(panicText)
+	}
+	if g.inner != nil {
+		g.inner.Shoot(am)
+		return
 	}
 	g.aggr.Report(c)
 }
@@ -586,6 +628,10 @@ func (pm *poolMocks) newGun() (core.Gun, error) {
 		return nil, errGun
 	}
 	pm.rs.created.Add(1)
+	if pm.gw != nil {
+		inner, dead := pm.gw.newGun(c)
+		return &mockGun{pm: pm, inner: inner, dead: dead}, nil
+	}
 	return &mockGun{pm: pm}, nil
 }
 
@@ -619,6 +665,11 @@ func classify(err error) string {
 	case errors.Is(err, errSched):
 		return "f.sched"
 	case errors.Is(err, errBind):
+		return "f.bind"
+	// the engine's wrapper around what the real gun's WarmUp returned / the real gun's own Bind error
+	case strings.Contains(err.Error(), "gun warm up failed"):
+		return "f.warm"
+	case strings.Contains(err.Error(), "makeGRPCConnect fail"):
 		return "f.bind"
 	case strings.Contains(err.Error(), "shoot panic"):
 		return "f.panic"
@@ -741,6 +792,10 @@ func history(all []observer.LoggedEntry, npools int, plans []poolPlan) []string 
 			out = append(out, fmt.Sprintf("%d.!%s", fieldInt(e, "p"), fieldStr(e, "what")))
 		case "verif-src":
 			out = append(out, fmt.Sprintf("%d.src", fieldInt(e, "p")))
+		case "verif-warmup":
+			out = append(out, fmt.Sprintf("%d.wu", fieldInt(e, "p")))
+		case "verif-rfl":
+			out = append(out, fmt.Sprintf("%d.rfl.%s", fieldInt(e, "p"), fieldStr(e, "what")))
 		case "verif-pre-fail":
 			pp := fieldInt(e, "p")
 			preDone[pp] = true
@@ -805,6 +860,9 @@ func runCase(line string) string {
 	for i, pl := range plans {
 		pm := &poolMocks{idx: i, plan: pl, rs: rs}
 		pms = append(pms, pm)
+		if g, ok := parseGW(pl.fault); ok {
+			pm.gw = startGW(pm, g)
+		}
 		idx := i
 		prov := &mockProvider{pm: pm, plan: pl, trigger: make(chan struct{})}
 		aggr := &mockAggregator{pm: pm, plan: pl, trigger: make(chan struct{})}
@@ -883,6 +941,11 @@ func runCase(line string) string {
 	case <-time.After(2 * time.Second):
 	}
 	cancel()
+	for _, pm := range pms { // the real grpc guns never close their connections; the target goes away
+		if pm.gw != nil {
+			pm.gw.stop()
+		}
+	}
 	// goroutines settle: everything the run started has ended (our own Wait() goroutine is
 	// still blocked when Wait hangs and is not counted)
 	extra := 0
@@ -909,8 +972,17 @@ func runCase(line string) string {
 		k = strconv.FormatInt(rs.begun.Load()-endedAtWait, 10)
 	}
 	// Q: what each pool's Provider.Run returned; A: the number of Shoot calls of each pool
-	var q, a []string
+	var q, a, u, m []string
 	for _, pm := range pms {
+		if pm.gw != nil {
+			pm.gw.mu.Lock()
+			u = append(u, pm.gw.warmRes)
+			m = append(m, pm.gw.methods)
+			pm.gw.mu.Unlock()
+		} else {
+			u = append(u, "-")
+			m = append(m, "-")
+		}
 		if v, ok := pm.provRes.Load().(string); ok {
 			q = append(q, v)
 		} else {
@@ -918,8 +990,8 @@ func runCase(line string) string {
 		}
 		a = append(a, strconv.FormatInt(pm.shoots.Load(), 10))
 	}
-	return fmt.Sprintf("R=%s W=%s G=%s K=%s N=%d Q=%s A=%s C=%d L=%d T=%s", res, vh.B(w), vh.B(settled), k, rs.compRuns.Load(),
-		strings.Join(q, ","), strings.Join(a, ","), rs.created.Load(), rs.closed.Load(), strings.Join(toks, ","))
+	return fmt.Sprintf("R=%s W=%s G=%s K=%s N=%d Q=%s A=%s U=%s M=%s C=%d L=%d T=%s", res, vh.B(w), vh.B(settled), k, rs.compRuns.Load(),
+		strings.Join(q, ","), strings.Join(a, ","), strings.Join(u, ","), strings.Join(m, ","), rs.created.Load(), rs.closed.Load(), strings.Join(toks, ","))
 }
 
 // ---- generator ----
@@ -1119,6 +1191,78 @@ func gen(r *vh.Rand, tier string) []string {
 			gjCase(poison, 1, 0, 0, r.Range(1, 3))
 			gjCase(poison, r.Range(1, 2), 0, r.Range(1, 5), 0)
 		}
+		// the REAL grpc gun as a component: its warm-up against a reflection endpoint that refuses a request -- the
+		// connection, the list of services, the descriptors of a listed service (first / in the middle / last of the
+		// list) -- in every way an endpoint can refuse (an ErrorResponse or an RPC status, NOT_FOUND or another code, an
+		// answer without the service, undecodable descriptors, an answer of the wrong kind), and against healthy ones
+		gwCase := func(cp, dial, list string, svcs []string, k int) {
+			ver := r.Pick([]string{"a", "1"})
+			sc := r.PickInt([]int{0, 0, 0, 1, 2, 3})
+			if dial == "bdead" {
+				sc = 0
+			}
+			rp := ""
+			if dial == "ok" && r.Chance(1, 5) {
+				rp = "p"
+			}
+			sv := "none"
+			if len(svcs) > 0 {
+				sv = strings.Join(svcs, ".")
+			}
+			ft := fmt.Sprintf("gw-%s%d%s-%s-%s-%s", ver, sc, rp, dial, list, sv)
+			p := poolPlan{n: r.Range(1, 3), shared: r.Bool(), ammo: r.Range(2, 6), tokens: r.Range(2, 5), fault: ft, k: k, ctxret: r.Bool()}
+			if dial == "bdead" {
+				p.n = 3
+			}
+			if strings.HasPrefix(cp, "shoot") {
+				p.ammo, p.tokens = -1, -1
+			}
+			line := "run " + cp + " " + poolStr(p)
+			if r.Chance(1, 4) {
+				line += " " + poolStr(healthy)
+			}
+			out = append(out, line)
+		}
+		okSvc := func() string { return fmt.Sprintf("ok%d", r.Range(1, 3)) }
+		for _, refusal := range []string{"e5", "r5", "nosym", "e7", "e14", "e13", "e2", "e16", "r7", "r13", "r14", "r12", "garbage", "wrongtype"} {
+			for pos := 0; pos < 3; pos++ {
+				var svcs []string
+				before, after := 0, 0
+				switch pos {
+				case 0:
+					after = r.Range(0, 2)
+				case 1:
+					before, after = r.Range(1, 2), r.Range(1, 2)
+				case 2:
+					before = r.Range(1, 3)
+				}
+				for i := 0; i < before; i++ {
+					svcs = append(svcs, okSvc())
+				}
+				svcs = append(svcs, refusal)
+				for i := 0; i < after; i++ {
+					svcs = append(svcs, okSvc())
+				}
+				gwCase(r.Pick([]string{"none", "none", "none", "none", "after", "pre"}), "ok", "ok", svcs, 0)
+			}
+		}
+		for _, l := range []string{"e7", "e5", "r14", "r13", "e12", "r5"} { // the list of services itself is refused
+			gwCase("none", "ok", l, []string{okSvc(), okSvc()}, 0)
+		}
+		gwCase("none", "dead", "ok", []string{okSvc()}, 0) // no connection can be made
+		gwCase(r.Pick([]string{"none", "after"}), "dead", "ok", []string{okSvc(), "e7"}, 0)
+		gwCase("none", "bdead", "ok", []string{okSvc()}, 1) // the first / second instance's gun cannot connect: Bind fails
+		gwCase("none", "bdead", "ok", []string{okSvc(), "e5"}, 2)
+		// healthy endpoints (1..4 services, one without methods, none at all), several refusals in one list (the first
+		// that counts is the one to report), cancels during the run
+		gwCase("none", "ok", "ok", []string{okSvc()}, 0)
+		gwCase("after", "ok", "ok", []string{okSvc(), okSvc(), "ok0", okSvc()}, 0)
+		gwCase("none", "ok", "ok", nil, 0)
+		gwCase("none", "ok", "ok", []string{"e5", r.Pick([]string{"e7", "r13", "garbage"}), okSvc(), r.Pick([]string{"e14", "wrongtype"})}, 0)
+		gwCase("none", "ok", "ok", []string{okSvc(), "nosym", "r5", "e5"}, 0)
+		gwCase("shoot2", "ok", "ok", []string{okSvc(), okSvc()}, 0)
+		gwCase(r.Pick([]string{"shoot1", "timed300"}), "ok", "ok", []string{"e5", okSvc()}, 0)
+		gwCase("pre", "ok", "ok", []string{okSvc()}, 0)
 		// random plans
 		nr := 40
 		for i := 0; i < nr; i++ {
@@ -1157,6 +1301,7 @@ func gen(r *vh.Rand, tier string) []string {
 func main() {
 	vh.Main(gen, func(cases []string) []string {
 		out := make([]string, len(cases))
+		primeGRPC()
 		for i, c := range cases {
 			out[i] = runCase(c)
 		}
